@@ -28,8 +28,9 @@ ASSUMPTIONS = [
     'computechi2: well-conditioned systems are also run with sqivar scaled by 2^-30 .. 2^30 (and bvec by the same, the '
     'inverse or no factor); all comparisons are relative',
     'computechi2: amatrix is two-dimensional (N, M) as documented, full column rank on the points with non-zero sqivar; '
-    'random systems with cond(A^T W A) < 1e5 plus badly scaled polynomial systems in raw pixel coordinates with '
-    'cond 2e8 .. 2e10 (the unmodified code is accurate to ~1e-10 there); float64 inputs',
+    'random systems with cond(A^T W A) < 1e5 plus a graded family with cond ~1e2, 1e6, 1e10, 1e12, 1e14 (monomials in the pixel '
+    'index, nearly collinear templates, template norms over 2^-12..2^12); rounding tolerances scale with max(1, cond/1e8), the '
+    'certified chi2-minimality clause does not; beyond cond 3e14 the unmodified code itself loses accuracy (not generated); float64 inputs',
     'pcomp: more observations than variables, no constant column; full-rank cases have cond < 1e6, and one case in five has '
     'an exactly singular covariance matrix (one variable = sum of two others)',
     'HMF steps: every row/column sub-problem is non-singular (cond < 1e5); M >= 2 pixels; positive a, g and '
@@ -114,6 +115,60 @@ def gen_chi2(ctx):
     return calls
 
 
+GRADES = [(1e1, 1e3), (1e5, 1e7), (1e9, 1e11), (1e11, 1e13), (1e13, 3e14)]
+
+
+def graded_candidate(rng):
+    """one full-rank system of a random construction; returns (A, sq, b)"""
+    kind = rng.choice(['monomial', 'monomial', 'collinear', 'norms'])
+    if kind == 'monomial':
+        n = rng.choice([12, 20, 30, 40, 60, 80, 100])
+        deg = rng.randint(1, 4)
+        A = [[float(v ** k) for k in range(deg + 1)] for v in range(n)]
+        coef = [dy(rng, -5, 5, 3) / float(n) ** k for k in range(deg + 1)]
+    elif kind == 'collinear':
+        n = rng.randint(8, 30)
+        m = rng.randint(2, 3)
+        base = [[dy(rng, -2, 2, 3) for _ in range(m)] for _ in range(n)]
+        eps = 2.0 ** -rng.randint(2, 22)
+        # last template = first template + eps * (its own direction): nearly collinear with the first
+        A = [[r[k] if k < m - 1 else r[0] + eps * r[m - 1] for k in range(m)] for r in base]
+        coef = [dy(rng, -3, 3, 3) for _ in range(m)]
+    else:
+        n = rng.randint(8, 30)
+        m = rng.randint(2, 4)
+        scale = [2.0 ** rng.randint(-12, 12) for _ in range(m)]
+        A = [[dy(rng, -2, 2, 3) * scale[k] for k in range(m)] for _ in range(n)]
+        coef = [dy(rng, -3, 3, 3) / scale[k] for k in range(len(scale))]
+    sq = [(0.0 if rng.random() < 0.15 else 2.0 ** rng.randint(-3, 3)) for _ in range(len(A))]
+    b = [round((sum(c * a for c, a in zip(coef, row)) + rng.uniform(-0.02, 0.02)) * 1024) / 1024.0 for row in A]
+    return kind, A, sq, b
+
+
+def graded_systems(ctx):
+    rng = ctx.rng
+    per = ctx.n(1, 8)
+    found = {g: [] for g in GRADES}
+    for _attempt in range(4000):
+        if all(len(v) >= per for v in found.values()):
+            break
+        kind, A, sq, b = graded_candidate(rng)
+        m = len(A[0])
+        if sum(1 for v in sq if v > 0) < m + 2:
+            continue
+        An = np.array(A)
+        cnd = cond(An.T @ np.diag(np.array(sq) ** 2) @ An)
+        for g in GRADES:
+            if g[0] <= cnd < g[1] and len(found[g]) < per:
+                found[g].append(('chi2-graded', {'f': 'chi2', 'b': b, 'sq': sq, 'A': A, '_cond': cnd, '_kind': kind,
+                                                 '_slack': max(1.0, 10.0 ** math.ceil(math.log10(cnd / 1e8)))}))
+                break
+    missing = [g for g in GRADES if len(found[g]) < per]
+    if missing:
+        raise RuntimeError('graded conditioning family: no system found for cond in %s' % missing)
+    return [c for g in GRADES for c in found[g]]
+
+
 def gen_chi2_systems(ctx):
     rng = ctx.rng
     calls = []
@@ -130,21 +185,11 @@ def gen_chi2_systems(ctx):
         if cond(An.T @ W @ An) > 1e5:
             continue
         calls.append(('chi2', {'f': 'chi2', 'b': b, 'sq': sq, 'A': A}))
-    # full-rank but badly scaled systems: polynomial basis [1, x, x^2] in raw pixel coordinates x = 0..n-1
-    # (cond(A^T W A) 1e8 .. 1e10); small integers so that the exact model stays cheap
-    ill = []
-    while len(ill) < ctx.n(4, 30):
-        n = rng.choice([120, 150, 200])
-        x = list(range(n))
-        A = [[1.0, float(v), float(v * v)] for v in x]
-        coef = [dy(rng, 1, 5, 2), -dy(rng, 1, 4, 2) / 64.0, dy(rng, 1, 4, 2) / 4096.0]
-        b = [round((coef[0] + coef[1] * v + coef[2] * v * v + rng.uniform(-0.25, 0.25)) * 8) / 8.0 for v in x]
-        sq = [float(rng.choice([0, 1, 1, 1, 2])) for _ in x]
-        An = np.array(A)
-        cnd = cond(An.T @ np.diag(np.array(sq) ** 2) @ An)
-        if not (2e8 < cnd < 2e10):
-            continue
-        ill.append(('chi2-illcond', {'f': 'chi2', 'b': b, 'sq': sq, 'A': A, '_cond': cnd}))
+    # a GRADED family of conditioning: full-rank systems whose normal matrix A^T W A has cond ~ 1e2, 1e6, 1e10, 1e12, 1e14
+    # (monomials in the pixel index, nearly collinear templates, wildly different template norms and weights), data and
+    # weights exactly representable with few bits so that the exact model stays cheap.  The rounding tolerances of the
+    # checker scale with the conditioning (`_slack` = max(1, cond / 1e8)); the certified optimality clause does not.
+    ill = graded_systems(ctx)
     # well-conditioned systems at extreme ABSOLUTE scales of the weights (sqivar ~ 1e-9 .. 1e9, powers of two so that the
     # floats stay short), bvec scaled along or against: every statement about computechi2 is scale free
     scaled = []
@@ -318,7 +363,7 @@ def case_term(c, r):
     o = r['ok']
     f = c['f']
     if f == 'chi2':
-        return '(CChi2 %s %s %s %s %s %s %s %s %s)' % (qv(c['b']), qv(c['sq']), qm(c['A']), qv(o['acoeff']), C.qlit(o['chi2']),
+        return '(CChi2 %s %s %s %s %s %s %s %s %s %s)' % (C.qlit(Fr(int(c.get('_slack', 1)))), qv(c['b']), qv(c['sq']), qm(c['A']), qv(o['acoeff']), C.qlit(o['chi2']),
                                                         qv(o['yfit']), C.zlit(o['dof']), qm(o['covar']), qv(o['var']))
     if f == 'pcomp':
         return '(CPcomp %s %s %s %s %s %s %s %s %s)' % (qm(c['x']), C.boollit(c['standardize']), C.boollit(c['covariance']),
